@@ -26,7 +26,7 @@ fn info(tier: Tier) -> CheckInfo {
         id: "C11",
         level: "exploration",
         rule: format!(
-            "Tier {}: a universe of 8 nodes on public IPs (secure+insecure on one IP; three secure ids on one IP, two sharing the 21-bit prefix; two insecure nodes with EQUAL ids on different IPs; a third insecure id sharing its first 17 bytes with them; ids tying with the target on the first differing byte; an id equal to the target). Every subset in every insertion order (sum of |s|! = 109601 sequences; subsets of up to 5 nodes = 8801 sequences in quick) is pushed through ClosestNodes::add for 4 targets and through RoutingTable::add for 3 own ids x 4 targets. For K-truncation: 21..24 distinct-IP nodes (mixed secure/insecure) under identity, reverse, every rotation and every adjacent transposition. A 246-node set (12 full buckets of insecure nodes + 6 secure ones) in index order, reversed and under 6 rotations, through ClosestNodes and a table, for 4 targets. take_until_secure over size-estimate in {{0,1,20,1000,usize::MAX}} x subnets in {{0,1,5,64,usize::MAX}}. Oracle: brute-force sort by (secure first, XOR distance) and the same-IP admission rule replayed in insertion order. Distinct = distinct (insertion sequence, target[, own id]).",
+            "Tier {}: a universe of 8 nodes on public IPs (secure+insecure on one IP, the insecure id matching 20 of the 21 BEP42 prefix bits; three secure ids on one IP, two sharing the 21-bit prefix; two insecure nodes with EQUAL ids on different IPs; a third insecure id sharing its first 17 bytes with them; ids tying with the target on the first differing byte; an id equal to the target). Every subset in every insertion order (sum of |s|! = 109601 sequences; subsets of up to 5 nodes = 8801 sequences in quick) is pushed through ClosestNodes::add for 4 targets and through RoutingTable::add for 3 own ids x 4 targets. For K-truncation: 21..24 distinct-IP nodes (mixed secure/insecure) under identity, reverse, every rotation and every adjacent transposition. A 246-node set (12 full buckets of insecure nodes + 6 secure ones) in index order, reversed and under 6 rotations, through ClosestNodes and a table, for 4 targets. take_until_secure over size-estimate in {{0,1,20,1000,usize::MAX}} x subnets in {{0,1,5,64,usize::MAX}}. Oracle: brute-force sort by (secure first, XOR distance) and the same-IP admission rule replayed in insertion order. Distinct = distinct (insertion sequence, target[, own id]).",
             tier.name()
         ),
         assumptions: vec![
@@ -67,8 +67,10 @@ fn universe() -> (Vec<N>, Vec<Id20>) {
     let mut t1 = n0.id;
     t1[18] ^= 0x40;
     // insecure on ip A, with a 21-bit prefix different from n0's
-    let mut i1 = fill(0x5a);
-    i1[0] = n0.id[0] ^ 0x80;
+    // (and ALMOST secure there: the BEP42 id for r = 3 with only the last of its 21 prefix
+    // bits flipped - 20 matching bits are not enough)
+    let mut i1 = bep42_id(ip_a, &fill(0x5a), 3);
+    i1[2] ^= 0x08;
     let mut i5 = t1;
     i5[9] ^= 0x18; // ties with i7 on the first differing byte (both differ from t1 in byte 9)
     let mut i7 = t1;
